@@ -85,6 +85,26 @@ func (w *World) canonAtom(a Atom) string {
 // necessaryAtoms: the canonical atoms a such that every path from the entry of f to target crosses
 // an edge labelled a.
 func (w *World) necessaryAtoms(f *ssa.Function, target ssa.Instruction) []string {
+	if target.Parent() != f {
+		// the instruction lives in a helper carved out of f: what is necessary to get there is what is
+		// necessary inside the helper plus what is necessary for the call, at every level of the chain
+		chain := siteChain(f, target)
+		if chain == nil {
+			return []string{"<unreachable from " + funcKey(f) + ">"}
+		}
+		set := map[string]bool{}
+		for _, l := range chain {
+			for _, a := range w.necessaryAtoms(l.fn, l.at) {
+				set[a] = true
+			}
+		}
+		var out []string
+		for a := range set {
+			out = append(out, a)
+		}
+		sort.Strings(out)
+		return out
+	}
 	by := map[string]map[Edge]bool{}
 	for _, ea := range condEdges(f) {
 		s := w.canonAtom(ea.A)
@@ -317,7 +337,9 @@ func init() {
 				if a.allowed != nil {
 					var extra []string
 					for _, s := range nec {
-						if !allowed[s] {
+						// (an event that could not be published aborts the handler in every form of the code: that
+						// the publication succeeded is not a condition on the protocol state)
+						if !allowed[s] && !regexp.MustCompile(`^nil\(\w+\.eventBus\.Publish\w+\(.*\)\)$`).MatchString(s) {
 							extra = append(extra, s)
 						}
 					}
@@ -1137,5 +1159,29 @@ func init() {
 		for i := 0; i < 3; i++ {
 			c.OK(fmt.Sprintf("%s :: cases evaluated (%d/3)", fk, i+1), w.pos(f.Pos()), fmt.Sprintf("%d abstract cases", cases))
 		}
+	})
+}
+
+// ------------------------------------------------------------------ C03.R11
+// F67: the commit step is entered when +2/3 precommits for a block have been seen; the node then only
+// waits for the block. Nothing re-enters that step (enterCommit is triggered by a *new* precommit, and
+// they are all in), so a transition out of it loses the decision for this node: the others decide, stop
+// voting for the height, and the node never does. enterNewRound — reached from +2/3-any votes of a later
+// round and from timeouts — therefore changes round and step only when the node is not in the commit step.
+func init() {
+	register("C03", "R11", "K1", "a node in the commit step is not moved to a later round (it would never finalise the decision it has seen)", 2, func(c *Ctx) {
+		w := c.W
+		f := c.fn("consensus", "State.enterNewRound")
+		if f == nil {
+			return
+		}
+		fk := funcKey(f)
+		commit := c.mustConst("consensus/types", "RoundStepCommit")
+		n := 0
+		for _, call := range w.callsTo(f, "consensus#State.updateRoundStep") {
+			n++
+			c.guards(f, call, fk+" :: move to the new round", 0, guardCmp("not in the commit step", `\w+(?:\.RoundState)?\.Step`, "!=", fmt.Sprint(commit)))
+		}
+		c.Check(n == 1, fk+" :: round/step update found", w.pos(f.Pos()), "1", fmt.Sprintf("%d", n))
 	})
 }
